@@ -23,6 +23,20 @@ pub fn make_core_pub() -> Core {
     make_core(None)
 }
 
+/// raw ICMP sockets are permitted here (probed once)
+pub fn icmp_available() -> bool {
+    static ONCE: std::sync::OnceLock<bool> = std::sync::OnceLock::new();
+    *ONCE.get_or_init(|| {
+        let fd = unsafe { libc::socket(libc::AF_INET, libc::SOCK_RAW, libc::IPPROTO_ICMP) };
+        if fd >= 0 {
+            unsafe { libc::close(fd) };
+            true
+        } else {
+            false
+        }
+    })
+}
+
 fn make_core(metrics_addr: Option<SocketAddr>) -> Core {
     let mut b = Settings::builder()
         .listen_address(("127.0.0.1", 1))
@@ -37,6 +51,11 @@ fn make_core(metrics_addr: Option<SocketAddr>) -> Core {
         .tcp_connections_timeout(Duration::from_millis(TCP_IDLE_MS))
         .udp_connections_timeout(Duration::from_millis(UDP_IDLE_MS))
         .client_listener_timeout(Duration::from_millis(SESSION_IDLE_MS));
+    if icmp_available() {
+        b = b.ipv6_available(false).icmp(
+            IcmpSettings::builder().interface_name("lo").request_timeout(Duration::from_millis(3_000)).recv_message_queue_capacity(16).build().unwrap(),
+        );
+    }
     if let Some(a) = metrics_addr {
         b = b.metrics(MetricsSettings::builder().listen_address(a).unwrap().request_timeout(Duration::from_secs(3)).build().unwrap());
     }
@@ -107,6 +126,8 @@ pub enum Op {
     UdpUp(usize, usize, usize),
     /// reply of the flow's server to mux tunnel t
     UdpDown(usize, usize, usize),
+    /// echo request on ICMP mux tunnel t to 127.0.0.1 (4: the kernel answers) or 2001:db8::1 (6: no IPv6, dropped), n data bytes
+    IcmpEcho(usize, u8, usize),
     Adv(u64),
 }
 
@@ -120,6 +141,7 @@ pub fn op_tok(o: &Op) -> String {
         Op::TunClose(t, k) => format!("tc.{}.{}", t, k),
         Op::UdpUp(t, f, n) => format!("uu.{}.{}.{}", t, f, n),
         Op::UdpDown(t, f, n) => format!("ud.{}.{}.{}", t, f, n),
+        Op::IcmpEcho(t, v, n) => format!("ic.{}.{}.{}", t, v, n),
         Op::Adv(ms) => format!("a.{}", ms),
     }
 }
@@ -205,6 +227,10 @@ struct Hist<'a> {
     uw: &'a c07::World,
     sess: Vec<Sess>,
     tuns: Vec<Tun>,
+    icmp_id: u16,
+    icmp_seq: u16,
+    /// keeps the ICMP forwarder's listener running
+    _icmp: Option<trusttunnel::verif::vicmp::VIcmp>,
 }
 
 fn udp_wire(src: SocketAddr, dst: SocketAddr, payload: &[u8]) -> Vec<u8> {
@@ -353,6 +379,7 @@ impl<'a> Hist<'a> {
                     'T' => self.tw.origin.to_string(),
                     'D' => self.tw.dead.to_string(),
                     'H' => self.tw.hanging.ok_or("no hanging port")?.to_string(),
+                    'I' => "_icmp".to_string(),
                     _ => "_udp2".to_string(),
                 };
                 let nflows = self.uw.src.len() * c07::ND;
@@ -442,6 +469,30 @@ impl<'a> Hist<'a> {
                     let _ = s.send_to(&p, to);
                 }
             }
+            Op::IcmpEcho(t, v, n) => {
+                self.icmp_seq = self.icmp_seq.wrapping_add(1);
+                let mut rec = self.icmp_id.to_be_bytes().to_vec();
+                if *v == 4 {
+                    rec.extend_from_slice(&[0u8; 12]);
+                    rec.extend_from_slice(&[127, 0, 0, 1]);
+                } else {
+                    // (::1 would read as the zero-padded IPv4 address 0.0.0.1 in the 7.3 record)
+                    rec.extend_from_slice(&"2001:db8::1".parse::<std::net::Ipv6Addr>().unwrap().octets());
+                }
+                rec.extend_from_slice(&self.icmp_seq.to_be_bytes());
+                rec.push(64);
+                rec.extend_from_slice(&(*n as u16).to_be_bytes());
+                let s = self.tuns[*t].sess;
+                match (&mut self.tuns[*t].io, &mut self.sess[s]) {
+                    (TunIo::H2(st), _) => {
+                        st.send(&rec, false);
+                    }
+                    (TunIo::H1, Sess::H1(h)) => {
+                        h.send(&rec);
+                    }
+                    _ => {}
+                }
+            }
             Op::Adv(ms) => tokio::time::advance(Duration::from_millis(*ms)).await,
         }
         Ok(())
@@ -491,7 +542,8 @@ pub fn exec(tw: &TcpWorld, uw: &c07::World, ops: &[Op], up_is_outbound: bool, wi
         };
         let core = make_core(maddr);
         let listener_task = maddr.map(|_| vlive::spawn_metrics_listener(&core));
-        let mut h = Hist { core, tw, uw, sess: vec![], tuns: vec![] };
+        let icmp = if icmp_available() { trusttunnel::verif::vicmp::spawn(&core, 0).and_then(|r| r.ok()) } else { None };
+        let mut h = Hist { core, tw, uw, sess: vec![], tuns: vec![], icmp_id: (std::process::id() as u16).wrapping_mul(977) | 0x2000, icmp_seq: 0, _icmp: icmp };
         h.settle().await;
         let mut outs = vec![];
         for op in ops {
@@ -564,6 +616,7 @@ enum GT {
     Tcp,
     Other,
     Udp,
+    Icmp,
 }
 
 fn gen_hist(rng: &mut Rng, nflows: usize, n: usize, hanging: bool) -> Vec<Op> {
@@ -589,13 +642,14 @@ fn gen_hist(rng: &mut Rng, nflows: usize, n: usize, hanging: bool) -> Vec<Op> {
                 continue;
             }
             sess[s].2 = true;
-            let k = match rng.below(10) {
+            let k = match rng.below(11) {
                 0..=4 => 'T',
                 5 => 'D',
                 6 if hanging => 'H',
+                7 if icmp_available() => 'I',
                 _ => 'U',
             };
-            tuns.push((s, match k { 'T' => GT::Tcp, 'U' => GT::Udp, _ => GT::Other }));
+            tuns.push((s, match k { 'T' => GT::Tcp, 'U' => GT::Udp, 'I' => GT::Icmp, _ => GT::Other }));
             ops.push(Op::TunOpen(s, k));
         } else if r < 75 && !tuns.is_empty() {
             let t = rng.below(tuns.len() as u64) as usize;
@@ -607,6 +661,7 @@ fn gen_hist(rng: &mut Rng, nflows: usize, n: usize, hanging: bool) -> Vec<Op> {
                     let l = *rng.pick(&[3usize, 10, 100, 1200]);
                     ops.push(if rng.chance(3, 5) { Op::UdpUp(t, f, l) } else { Op::UdpDown(t, f, l) })
                 }
+                GT::Icmp => ops.push(Op::IcmpEcho(t, if rng.chance(2, 3) { 4 } else { 6 }, *rng.pick(&[0usize, 1, 56, 1000]))),
                 GT::Other => {}
             }
         } else if r < 88 && !tuns.is_empty() {
@@ -753,6 +808,13 @@ pub fn run(ctx: &mut Ctx) {
     hist.push(vec![so(2), Op::TunOpen(0, 'U'), Op::UdpUp(0, 0, 10), Op::UdpDown(0, 0, 20), Op::UdpUp(0, 1, 5), Op::Adv(UDP_IDLE_MS + UDP_IDLE_MS / 4 + 1), Op::UdpUp(0, 0, 10), Op::SessClose(0)]);
     hist.push(vec![so(1), Op::TunOpen(0, 'U'), Op::UdpUp(0, 2, 10), Op::UdpDown(0, 2, 20), Op::UdpUp(0, 3, 5), Op::UdpUp(0, 4, 5), Op::UdpUp(0, 0, 5), Op::TunClose(0, 'r')]);
     hist.push(vec![so(2), so(2), so(1), Op::SessClose(1), Op::SessClose(0), Op::SessClose(2)]);
+    if icmp_available() {
+        // ICMP multiplexer: answered echoes count both ways, an echo the forwarder drops (IPv6 peer, IPv6 off) counts nothing
+        hist.push(vec![so(2), Op::TunOpen(0, 'I'), Op::IcmpEcho(0, 4, 56), Op::IcmpEcho(0, 6, 56), Op::IcmpEcho(0, 4, 0), Op::IcmpEcho(0, 6, 1000), Op::TunClose(0, 'g'), Op::SessClose(0)]);
+        hist.push(vec![so(1), Op::TunOpen(0, 'I'), Op::IcmpEcho(0, 6, 8), Op::IcmpEcho(0, 4, 8), Op::TunClose(0, 'r')]);
+    } else {
+        ctx.notes.push("raw ICMP sockets are not permitted here: no ICMP multiplexer traffic in the histories".into());
+    }
     // a UDP flow whose send fails (dead port, second datagram) next to healthy ones, then reuse and expiry
     hist.push(vec![so(2), Op::TunOpen(0, 'U'), Op::UdpUp(0, 0, 10), Op::UdpUp(0, 3, 5), Op::UdpUp(0, 3, 5), Op::UdpUp(0, 3, 5), Op::UdpUp(0, 1, 5), Op::UdpDown(0, 0, 7), Op::Adv(UDP_IDLE_MS + UDP_IDLE_MS / 4 + 1), Op::SessClose(0)]);
     hist.push(vec![so(1), Op::TunOpen(0, 'U'), Op::UdpUp(0, 8, 10), Op::UdpUp(0, 8, 10), Op::UdpUp(0, 4, 10), Op::UdpUp(0, 4, 10), Op::UdpUp(0, 8, 10), Op::TunClose(0, 'r')]);
@@ -785,7 +847,7 @@ pub fn run(ctx: &mut Ctx) {
     let rt = tokio::runtime::Builder::new_current_thread().enable_all().start_paused(true).build().unwrap();
     let text = rt.block_on(async {
         let core = make_core(None);
-        let mut h = Hist { core, tw: &tw, uw: &uw, sess: vec![], tuns: vec![] };
+        let mut h = Hist { core, tw: &tw, uw: &uw, sess: vec![], tuns: vec![], icmp_id: 1, icmp_seq: 0, _icmp: None };
         for op in [Op::SessOpen(1), Op::SessOpen(2), Op::TunOpen(0, 'T'), Op::TunOpen(1, 'T'), Op::Up(0, 1), Op::Up(1, 1), Op::Down(0, 1), Op::Down(1, 1)] {
             let _ = h.apply(&op).await;
             h.settle().await;
@@ -811,6 +873,7 @@ pub fn parse_ops(s: &str) -> Vec<Op> {
                 "tc" => Op::TunClose(n(1), c(2)),
                 "uu" => Op::UdpUp(n(1), n(2), n(3)),
                 "ud" => Op::UdpDown(n(1), n(2), n(3)),
+                "ic" => Op::IcmpEcho(n(1), n(2) as u8, n(3)),
                 "a" => Op::Adv(n(1) as u64),
                 _ => return None,
             })
